@@ -41,7 +41,8 @@ Proof. exact legacy_passkey_roles. Qed.
 (** ======================= Stage B: the two-party run =======================
     [run pi pr sc] : the central with parameters [pi] initiates pairing with the peripheral with
     parameters [pr]; [sc] is the scripted user.  All parameters: [wf_params] only asks for an IO
-    capability code 0..4; bonding, key size, distribution flags, passkeys are arbitrary. *)
+    capability code 0..4; bonding, key size, distribution flags, passkeys and the connection handle of
+    each side ([a_handle], any N, 0 included, the two sides' handles need not be equal) are arbitrary. *)
 
 (** The run terminates (both queues empty within the fuel), nothing raises, and both sides are in
     the same outcome: both report success or both report failure. *)
@@ -211,15 +212,16 @@ Proof. exact st_init_startable. Qed.
 (** The swept domain of controls (the bound behind the "for all parameters" above). *)
 Theorem C14_control_domain :
   N.of_nat (length all_ctls) = 8192 /\
-  forall pi pr sc, wf_params pi -> wf_params pr -> In (control_of pi pr sc) all_ctls.
-Proof. exact (conj all_ctls_length control_of_in). Qed.
+  forall pi pr sc, wf_params pi -> wf_params pr ->
+    control_of pi pr sc = set_handles (a_handle pi) (a_handle pr) (control0 pi pr sc) /\ In (control0 pi pr sc) all_ctls.
+Proof. exact (conj all_ctls_length (fun pi pr sc Hi Hr => conj eq_refl (control_of_in pi pr sc Hi Hr))). Qed.
 
 (** Non-vacuity: a legacy Passkey Entry run (initiator KeyboardOnly + MITM, responder DisplayOnly,
     key sizes 7 and 16, bonding on one side only) meets the hypotheses, succeeds, and its STK is
     s1(TK, Srand, Mrand); the same run with a wrong passkey fails on both sides. *)
 Example C14_nonvacuous :
-  let pi := {| a_lesc := false; a_oob := false; a_mitm := true; a_bond := true; a_iocap := 2; a_mks := 7; a_kd := 7 |} in
-  let pr := {| a_lesc := false; a_oob := false; a_mitm := false; a_bond := false; a_iocap := 0; a_mks := 16; a_kd := 5 |} in
+  let pi := {| a_lesc := false; a_oob := false; a_mitm := true; a_bond := true; a_iocap := 2; a_mks := 7; a_kd := 7; a_handle := 0 |} in
+  let pr := {| a_lesc := false; a_oob := false; a_mitm := false; a_bond := false; a_iocap := 0; a_mks := 16; a_kd := 5; a_handle := 3839 |} in
   let good := {| u_gen_i := 1; u_gen_r := 123456; u_typed_i := 123456; u_typed_r := 0; u_nc_i := true; u_nc_r := true |} in
   let bad := {| u_gen_i := 1; u_gen_r := 123456; u_typed_i := 123457; u_typed_r := 0; u_nc_i := true; u_nc_r := true |} in
   wf_params pi /\ wf_params pr /\ sel_method pi pr = 1
